@@ -26,12 +26,22 @@ ASSUMPTIONS = [
 ]
 
 
-def impl(inp):
+# float regime (monitor): strengths and initial healths that are NOT multiples of 2^-20, chosen so
+# that repeated subtraction leaves tiny positive residues (0.9 - 3 * 0.3 = 1.1e-16) or overshoots
+F_STRENGTH = [0.3, 0.1, 0.2, 0.7, 1 / 3, 0.15, 0.45, 0.05]
+F_HEALTH = [0.9, 0.4, 1.0, 0.6, 0.3, 0.7, 0.8, 0.2]
+
+
+def impl(inp, floats=False):
     from abmarl.sim.gridworld.actor import MoveActor, CrossMoveActor, DriftMoveActor
-    rows, cols, wov, wags, ops, (kind, mapping, stacked, params, seed) = inp
+    rows, cols, wov, wags, ops, meta = inp
+    kind, mapping, stacked, params, seed = meta[:5]
+    fspec = meta[5] if len(meta) > 5 else None      # float regime: per agent [h_num, h_den, s_num, s_den]
 
     def extra(i):
         rg, st, acc, sim = params[i]
+        if floats:
+            st = (fspec[i][2] / fspec[i][3] if fspec else F_STRENGTH[(st + i) % len(F_STRENGTH)]) * HD
         return dict(attack_range=("FULL" if rg < 0 else rg), attack_strength=st / HD,
                     attack_accuracy=acc / HD, simultaneous_attacks=sim, move_range=max(rows, cols))
     agents = G.build_agents(wags, extra=extra)
@@ -40,10 +50,15 @@ def impl(inp):
               2: DriftMoveActor(grid=grid, agents=agents)}
     attacker = gen_C11.make_actor(kind, grid, agents, mapping, stacked)
     G.place_initial(grid, agents, wags)
+    if floats:
+        for i, w in enumerate(wags):
+            if w[3] and w[2] > 0:       # active with positive health: a non-dyadic health instead
+                agents[G.aid(i)]._health = (fspec[i][0] / fspec[i][1] if fspec
+                                            else F_HEALTH[(w[2] + i + seed) % len(F_HEALTH)])
     full = max(rows, cols) - 1
     mp = {k: v for k, v in mapping}
     out_ops, recs = [], []
-    snap0 = G.snapshot(grid, agents)
+    snap0 = G.snapshot(grid, agents, quantise=floats)
     for n, op in enumerate(ops):
         if op[0] == 0:
             _, mk, i = op[:3]
@@ -82,8 +97,12 @@ def impl(inp):
                     r = [-1, exc_code(e)]
             cfg = [R, st, acc, sim, sorted(mp.get(wags[i][0], [])), 1 if stacked else 0]
             out_ops.append([1, [i, cfg, wact, [spy.unif, spy.choices]]])
-        recs.append([r, G.snapshot(grid, agents)])
+        recs.append([r, G.snapshot(grid, agents, quantise=floats)])
     return [out_ops, [snap0, recs]]
+
+
+def impl_float(inp):
+    return impl(inp, floats=True)
 
 
 def split(inp, out):
@@ -170,11 +189,66 @@ def shrink(inp):
         yield [rows, cols, ov, ags, ops[:i], meta]
 
 
+def duel(rng):
+    """One attacker wearing one victim down with a strength that does not divide the victim's health
+    in binary64 (0.9 - 3 * 0.3 = 1.1e-16 > 0; 0.3 - 3 * 0.1 < 0), bystanders moving about."""
+    rows, cols = rng.choice([(1, 3), (2, 2), (2, 3), (3, 3), (3, 4)])
+    cells = [(r, c) for r in range(rows) for c in range(cols)]
+    a = rng.choice(cells)
+    near = [p for p in cells if p != a and abs(p[0] - a[0]) <= 1 and abs(p[1] - a[1]) <= 1]
+    v = rng.choice(near)
+    ags = [gen_C11.wagent(1, a), gen_C11.wagent(2, v)]
+    for p in rng.sample([c for c in cells if c not in (a, v)], rng.randint(0, min(2, len(cells) - 2))):
+        ags.append(gen_C11.wagent(rng.choice([2, 3]), p))
+    if rng.random() < 0.5:
+        ags[0], ags[1] = ags[1], ags[0]
+    att = 0 if ags[0][0] == 1 else 1
+    den = rng.choice([10, 10, 10, 20, 3, 7])
+    hn = rng.randint(1, den)
+    sn = rng.randint(1, max(1, den - 1))
+    fspec = [[hn if i != att else den, den, sn, den] for i in range(len(ags))]
+    kind = rng.choice([0, 0, 1, 2, 3])
+    encs = sorted({x[0] for x in ags})
+    mapping = [[e, ([x for x in (2, 3) if x in encs] if e == 1 else [])] for e in encs]
+    params = [[1, HD, HD, 1] for _ in ags]
+    hits = -(-hn // sn) + 1
+    ops = []
+    e2 = [x for x in (2, 3) if x in encs]
+    for _ in range(hits + rng.randint(0, 2)):
+        if kind == 0:
+            act = 1
+        elif kind == 1:
+            act = [[e, 1] for e in e2]
+        elif kind == 2:
+            act = [1] * 9
+        else:
+            act = [(v[0] - a[0] + 1) * 3 + (v[1] - a[1] + 1) + 1]
+        ops.append([1, att, act])
+        if len(ags) > 2 and rng.random() < 0.4:
+            ops.append([0, 0, rng.randrange(2, len(ags)), rng.randint(-1, 1), rng.randint(-1, 1)])
+    return [rows, cols, [], ags, ops, [kind, mapping, 0, params, rng.getrandbits(30), fspec]]
+
+
+def gen_float(tier, rng):
+    """float-regime monitor: duels with non-dyadic health/strength, and random attack-heavy histories"""
+    quick = tier != "thorough"
+    for _ in range(600 if quick else 12000):
+        yield duel(rng)
+    for inp in gen(tier, rng):
+        if rng.random() < 0.4:
+            yield inp
+
+
 COMPONENTS = [
     Component(301, "interleaved_play", impl, gen, chk=302, nontrivial=nontrivial, classify=classify,
               shrink=shrink, compare=compare),
+    # invariant monitor outside the model's arithmetic: the model's answer (exact dyadic arithmetic on
+    # other numbers) is not compared; only the extracted invariant checker ginvb decides
+    Component(301, "float_regime_invariant", impl_float, gen_float, chk=302, nontrivial=nontrivial,
+              classify=classify, shrink=shrink, compare=lambda a, b: True),
 ]
 COMPONENTS[0].split = split
+COMPONENTS[1].split = split
 
 
 from .gen_E2E import COMPONENT_E2E  # noqa: E402  end-to-end instance (design/E2E.md)
